@@ -230,7 +230,8 @@ def run(tier):
     # FILE-HEADER
     fh_reqs, fh_cases = [], []
     for i in range(60 if tier == 'quick' else 600):
-        hid = R.choice(['FILE-HEADER', '', 'A' * 65, 'B' * 66, 'some id', eflr.rstr(R, R.randrange(0, 66))])
+        hid = R.choice(['FILE-HEADER', '', 'A' * 65, 'B' * 66, 'some id', ' led by a blank', '   ', 'ends in blanks  ',
+                        ' ' + eflr.rstr(R, R.randrange(0, 64)), eflr.rstr(R, R.randrange(0, 66))])
         seqno = R.choice([1, 2, 9999999999, 10**10, 0, R.randrange(1, 10**10)])
         ident = R.choice(['0', 'X', '9'])
 
